@@ -97,6 +97,13 @@ pub enum Error {
     #[error("unsupported compressor type {0} - try enabling the feature flag for it")]
     UnsupportedCompressorType(String),
 
+    #[error("unsupported compression level {level} for {compressor} - supported levels: {supported}")]
+    UnsupportedCompressionLevel {
+        compressor: &'static str,
+        level: u32,
+        supported: &'static str,
+    },
+
     #[error("unsupported digest algorithm {0:?}")]
     UnsupportedDigestAlgorithm(DigestAlgorithm),
 
